@@ -29,7 +29,7 @@ from .. import q
 from ..model import AnalysisError
 from ..rules import call_sites
 from ..mutate import mutate, remove_stmts, replace_expr, replace_stmt, parse_stmt, parse_expr
-from ..x_http import atom_edges, reach_without, resolve_call, single_bindings, node_mentions, self_modsets
+from ..x_http import norm_func, atom_edges, reach_without, resolve_call, single_bindings, node_mentions, self_modsets
 from ..x_absint import Evaluator, HeaderMap, Obj, UNK
 
 TECHNIQUE = "exhaustive finite-domain abstract interpretation of the keep-alive decision, header emission and close functions + guard dominance on the CFG"
@@ -46,6 +46,11 @@ NOT_DECIDED = (
 
 H1 = "tornado/http1connection.py"
 CONN_VALUES = (None, "close", "Close", "keep-alive", "Keep-Alive", "upgrade")
+
+
+def _F(ck, rel, qn):
+    """the anchored function with private single-purpose helpers inlined (same qualified name)"""
+    return norm_func(ck.repo, ck.func(rel, qn))
 
 
 def _lc(v):
@@ -110,7 +115,7 @@ def _evaluator(ck, root, **kw):
 
 def check_table(ck):
     R = "C03.keep-alive-table"
-    fi = ck.func(H1, "HTTP1Connection._can_keep_alive")
+    fi = _F(ck, H1, "HTTP1Connection._can_keep_alive")
     ps = [p for p in fi.params() if p != "self"]
     if len(ps) != 2:
         raise AnalysisError("_can_keep_alive: expected (start_line, headers) parameters")
@@ -149,7 +154,7 @@ def _truth(v):
 
 def check_read_message(ck):
     repo = ck.repo
-    fi = ck.func(H1, "HTTP1Connection._read_message")
+    fi = _F(ck, H1, "HTTP1Connection._read_message")
     cfg = fi.cfg
     cka = repo.func(H1, "HTTP1Connection._can_keep_alive")
     binds = single_bindings(fi.node)
@@ -217,7 +222,7 @@ def check_read_message(ck):
 def check_exchange_result(ck):
     """after a completed exchange on an attached stream _read_message returns True (the serving loop goes on)"""
     R = "C03.exchange-returns-true"
-    fi = ck.func(H1, "HTTP1Connection._read_message")
+    fi = _F(ck, H1, "HTTP1Connection._read_message")
     cfg = fi.cfg
     fins = [n for n, c in cfg.find(lambda x: isinstance(x, ast.Call) and q.call_attr(x) == "finish" and not (q.dotted(x.func.value) or "").startswith("self"))]
     ck.floor(R, len(fins), 1, "delegate.finish() sites")
@@ -230,34 +235,54 @@ def check_exchange_result(ck):
             n += 1
             ck.ob(R, fi, rt.ast, q.is_const(rt.ast.value, True), "after delegate.finish() on an attached stream _read_message returns True, so a persistent connection is served again")
     ck.floor(R, n, 1, "returns after a completed exchange")
-    lp = ck.func(H1, "HTTP1ServerConnection._server_request_loop")
-    loops = [w for w in q.walk_body(lp.node) if isinstance(w, ast.While)]
-    ck.floor(R, len(loops), 1, "loops in _server_request_loop")
-    for w in loops:
-        ck.ob(R, lp, w, q.is_const(w.test, True) and any(isinstance(c, ast.Call) and q.call_attr(c) == "read_response" for c in ast.walk(w)), "the serving loop reads requests until told to stop")
+    from . import c01 as _c01
+    _c01.check_serving_loop(ck, R)
 
 
 def check_per_request_state(ck):
     R = "C03.per-request-state"
-    ci = ck.func(H1, "HTTP1Connection.__init__")
+    ci = _F(ck, H1, "HTTP1Connection.__init__")
     for attr in ("_disconnect_on_finish", "_read_finished", "_write_finished"):
         sts = q.stores_to(ci.node, "self." + attr)
         ck.ob(R, ci, sts[0] if sts else ci.node, len(sts) == 1 and q.is_const(sts[0].value, False), "a new request starts with %s = False" % attr, construct="init %s" % attr)
-    lp = ck.func(H1, "HTTP1ServerConnection._server_request_loop")
+    lp = _F(ck, H1, "HTTP1ServerConnection._server_request_loop")
     pm = q.parent_map(lp.node)
     ctor = [c for c in q.calls(lp.node) if q.call_attr(c) == "HTTP1Connection"]
     ck.floor(R, len(ctor), 1, "HTTP1Connection constructions in the serving loop")
     for c in ctor:
         ck.ob(R, lp, c, any(isinstance(a, ast.While) for a in q.ancestors(pm, c)), "persistence state is per request: a fresh HTTP1Connection for every request of the connection")
         ck.ob(R, lp, c, len(c.args) >= 2 and q.is_const(c.args[1], False), "the serving loop creates server-mode connections")
-    # nobody but the anchored mechanisms writes the flag
-    writers = sorted({f.name for f in ck.repo.methods(H1, "HTTP1Connection") if q.stores_to(f.node, "self._disconnect_on_finish")})
-    ck.ob(R, None, ck.repo.cls(H1, "HTTP1Connection"), set(writers) <= {"__init__", "_read_message", "finish", "write_headers"}, "_disconnect_on_finish is written only by __init__, _read_message, write_headers and finish (found: %s)" % ", ".join(writers), construct="writers of _disconnect_on_finish", file=H1)
+    # nobody but the anchored mechanisms (and private helpers reachable only from them) writes the flag
+    allowed = {"__init__", "_read_message", "finish", "write_headers"}
+    methods = {f.name: f for f in ck.repo.direct_methods(H1, "HTTP1Connection")}
+    callers = {}
+    for f in methods.values():
+        for c in q.calls(f.node):
+            d = q.dotted(c.func)
+            if d and d.startswith("self.") and d.count(".") == 1 and d.split(".")[1] in methods:
+                callers.setdefault(d.split(".")[1], set()).add(f.name)
+        for x in q.walk_body(f.node):  # bound-method references (callbacks, functools.partial)
+            if isinstance(x, ast.Attribute) and q.dotted(x) and q.dotted(x).startswith("self.") and x.attr in methods and isinstance(x.ctx, ast.Load):
+                callers.setdefault(x.attr, set()).add(f.name)
+
+    def roots(name, seen=()):
+        if name in allowed:
+            return {name}
+        if name in seen or not name.startswith("_") or not callers.get(name):
+            return {"<%s>" % name}
+        out = set()
+        for c in callers[name]:
+            out |= roots(c, seen + (name,))
+        return out
+
+    writers = sorted({f.name for f in methods.values() if q.stores_to(f.node, "self._disconnect_on_finish")})
+    foreign = sorted({r for w in writers for r in roots(w) if r not in allowed})
+    ck.ob(R, None, ck.repo.cls(H1, "HTTP1Connection"), not foreign, "_disconnect_on_finish is written only by __init__, _read_message, write_headers, finish and private helpers reachable only from them (writers: %s%s)" % (", ".join(writers), "" if not foreign else "; reachable from " + ", ".join(foreign)), construct="writers of _disconnect_on_finish", file=H1)
 
 
 def check_finish(ck):
     R = "C03.finish-early-close"
-    fi = ck.func(H1, "HTTP1Connection.finish")
+    fi = _F(ck, H1, "HTTP1Connection.finish")
     seen = {"calls": 0}
     modset = _modset(ck)
 
@@ -292,7 +317,7 @@ def check_finish(ck):
 
 def check_finish_request(ck):
     R = "C03.finish-request-closes"
-    fi = ck.func(H1, "HTTP1Connection._finish_request")
+    fi = _F(ck, H1, "HTTP1Connection._finish_request")
     ps = [p for p in fi.params() if p != "self"]
     n = 0
     modset = _modset(ck)
@@ -310,7 +335,7 @@ def check_finish_request(ck):
             ck.ob(R, fi, fi.node, bool(closes) == want, "the connection is closed after the response iff server and _disconnect_on_finish (is_client=%s flag=%s)" % (is_client, disc),
                   construct="_finish_request: is_client=%s flag=%s closes=%s" % (is_client, disc, bool(closes)))
     ck.floor(R, n, 4, "evaluated outcomes")
-    cl = ck.func(H1, "HTTP1Connection.close")
+    cl = _F(ck, H1, "HTTP1Connection.close")
     sc = call_sites(cl, "self.stream.close")
     ck.floor(R, len(sc), 1, "stream.close() in HTTP1Connection.close")
     for node, c in sc:
@@ -324,7 +349,7 @@ def _bodiless(method, code):
 
 
 def check_write_headers(ck):
-    fi = ck.func(H1, "HTTP1Connection.write_headers")
+    fi = _F(ck, H1, "HTTP1Connection.write_headers")
     ps = [p for p in fi.params() if p != "self"]
     if len(ps) < 2:
         raise AnalysisError("write_headers: expected (start_line, headers, chunk) parameters")
@@ -398,6 +423,8 @@ def check_write_headers(ck):
 
 
 def run(ck):
+    from ..x_http import GuardedCheck
+    ck = GuardedCheck(ck)
     ck.rule("C03.keep-alive-table", "_can_keep_alive equals the reference table: never with no_keep_alive; 1.1 unless Connection: close; 1.0 only with keep-alive and a delimited request body")
     ck.rule("C03.flag-from-table", "server _read_message assigns _disconnect_on_finish = not _can_keep_alive(this request) on every path before delegate.headers_received")
     ck.rule("C03.read-finished-after-body", "_read_finished becomes True only after the request body was read, and before delegate.finish()")
